@@ -55,6 +55,7 @@ func lastSecondChild() {
 		out.Note = "cannot join the stats topic"
 		return
 	}
+	log.SetLevel(log.DebugLevel) // this relay runs at debug level (output discarded): nothing may change
 	var keep []*websocket.Conn
 	var kmu sync.Mutex
 	for round := 0; round < lastRounds; round++ {
